@@ -218,6 +218,21 @@ CLAIMED["C04"] = dict(
     technique="Coq proof (append-only calls, override, pass-through) + multi-call correspondence under one bijection",
     design="4/C04")
 
+CLAIMED["C19"] = dict(
+    text=("Interleaving semantics over Fiddle's module-level state (per-thread build guard and tracking switch, the "
+          "global sequence counter, shared caches filled with a pure function of the key): for EVERY schedule of "
+          "the modelled atomic actions each thread observes what it observes alone (up to order-preserving "
+          "renaming of sequence ids and cache hit/miss), ids are strictly increasing globally hence unique and "
+          "increasing per thread, and a shared cache only ever returns f(key). Real threads are run under a "
+          "deterministic scheduler that switches at source-line granularity inside Fiddle; per-thread results are "
+          "compared with sequential runs and the logged guard / switch / counter events of every schedule are "
+          "replayed on the Coq model."),
+    note=COMMON_NOTE + " Partial: atomicity of single bytecode operations under the GIL, threading.local, "
+         "itertools.count.__next__, lru_cache and WeakKeyDictionary are assumptions of the model; the theorem is about "
+         "interleavings of the modelled actions, the scheduler samples real line-level interleavings.",
+    technique="Coq proof (non-interference for all interleavings of atomic actions) + deterministic line-level scheduler",
+    design="4/C19")
+
 PENDING_REASON = "check not built yet in this session (work in progress; see DESIGN.md section 4)"
 
 
